@@ -8,8 +8,18 @@ struct tv_store { long e[2]; long *p[2]; };
 static int tv_valid(const struct tval *v) {
     if(v->n > 2) return 0;
     for(int i = 0; i < 2; i++) if(i < v->n && (v->e[i] < 0 || v->e[i] > 65535)) return 0;
+#ifdef SETOF_N_MAX      /* harness bound (stated in the evidence) on the element count */
+    if(v->n > (SETOF_N_MAX)) return 0;
+#endif
+#ifdef SETOF_ELEM_MAX   /* harness bound (stated in the evidence): keeps every element encoding at one content octet */
+    for(int i = 0; i < 2; i++) if(i < v->n && v->e[i] > (SETOF_ELEM_MAX)) return 0;
+#endif
     return 1;
 }
+#ifdef SETOF_FIXED   /* harness bound: a concrete value (1: {65535}, 2: {65535, 3} - emitted in the other order by DER) */
+#define TV_HAS_FIX 1
+static void tv_fix(struct tval *v) { v->n = (SETOF_FIXED); v->e[0] = 65535; v->e[1] = 3; }
+#endif
 static void tv_build(const struct tval *v, TYPE_T *o, struct tv_store *s) {
     memset(o, 0, sizeof(*o));
     for(int i = 0; i < 2; i++) { s->e[i] = (long)v->e[i]; s->p[i] = &s->e[i]; }
